@@ -40,7 +40,15 @@
 (* in which the implementation departs from the list semantics.  The       *)
 (* expected outcome is always Sem(..., {}); Sem(..., D) for non-empty D is *)
 (* exported only so that a mismatch can be attributed to exactly the       *)
-(* recorded defect (and to nothing else).                                  *)
+(* recorded defect (and to nothing else):                                  *)
+(*   "nodist"     an ordered query loses the automatic DISTINCT            *)
+(*   "merged"     methods applied to select(x for x in q.limit(..)) act    *)
+(*                on q before its limit                                    *)
+(*   "countsql"   count() of a non-entity query is COUNT([DISTINCT] first  *)
+(*                column)                                                  *)
+(*   "aggexpl"    sum/avg/group_concat ignore an explicit distinct()       *)
+(*   "delnolimit" bulk delete of a query over a limited query ignores the  *)
+(*                limit                                                    *)
 (*                                                                         *)
 (* Values: a value is an integer: NullV = -1 is None, table integers are   *)
 (* >= 0 and < 1000, the string Letters[k] is 1000 + k.  So `<` on values   *)
@@ -400,7 +408,8 @@ Sem(q, t, devs) ==
 TermApplicable(q, t) ==
     CASE t.op = "insub"  -> q.proj = "ent" /\ q.sub = <<>> /\ Res(q, {}).det
       [] t.op = "delete" -> q.proj = "ent"
-      [] t.op = "random" -> ~AutoDistinct(q.proj) \/ t.a \in {0, 1} \/ t.a >= Len(Table)   \* keeps the verdict independent of the draw
+      [] t.op = "random" -> /\ ~AutoDistinct(q.proj) \/ t.a \in {0, 1} \/ t.a >= Len(Table)   \* keeps the verdict (also the attribution
+                            /\ q.sub = <<>> \/ t.a = 0                                      \* to a named deviation) independent of the draw
       [] t.op = "gconcat" -> ~(t.a = 1 /\ t.d = "yes")       \* SQLite: a DISTINCT aggregate takes one argument
       [] OTHER -> TRUE
 
